@@ -73,6 +73,39 @@ Definition spec_step (tbl : ctable) (objs : list sobj) (o : op) : list sobj * ob
               else (objs, Rejected)          (* a rejected store has no effect *)
           end
       end
+  | OCall i m v =>
+      (* a method parameter declared with a type denotes that type under the object's OWN arguments *)
+      match nth_error objs i with
+      | None => (objs, BadInst)
+      | Some x =>
+          match lookup (s_cls x) tbl with
+          | None => (objs, BadInst)
+          | Some g => match lookup m (g_meths g) with
+                      | None => (objs, BadInst)
+                      | Some d => (objs, if (match member_type g (s_args x) d with None => true | Some t => of_type v t end)
+                                         then Accepted else Rejected)
+                      end
+          end
+      end
+  | ONewC c args v =>
+      match lookup c tbl with
+      | None => (objs, NewFailed)
+      | Some g =>
+          match g_ctor g with
+          | None => (objs, NewFailed)
+          | Some (p, d) =>
+              if (List.length args <? List.length (g_params g))%nat then (objs, NewFailed)
+              else if (match member_type g args d with None => true | Some t => of_type v t end)
+                   then ((objs ++ [{| s_cls := c; s_args := args; s_vals := [(p, v)] |}])%list, Created)
+                   else (objs, NewFailed)
+          end
+      end
+  | ONewRaw c =>
+      (* no type arguments: the type parameters stand for nothing, members declared with them are unconstrained *)
+      match lookup c tbl with
+      | None => (objs, NewFailed)
+      | Some _ => ((objs ++ [{| s_cls := c; s_args := []; s_vals := [] |}])%list, Created)
+      end
   | ORead i p =>
       match nth_error objs i with
       | None => (objs, BadInst)
@@ -96,3 +129,9 @@ End Spec.
 Fixpoint nodupb (l : list string) : bool :=
   match l with [] => true | x :: r => negb (existsb (String.eqb x) r) && nodupb r end.
 Definition wf_tbl (tbl : ctable) : bool := forallb (fun e => nodupb (g_params (snd e))) tbl.
+
+(* the parameter boundary lets null through for every declared type (C07 finding type:param:*:null): the
+   history theorems are stated for histories that pass no null ARGUMENT (stores of null are fine) *)
+Definition op_null_free (o : op) : bool :=
+  match o with OCall _ _ VNull | ONewC _ _ VNull => false | _ => true end.
+Definition null_free (h : list op) : bool := forallb op_null_free h.
